@@ -19,32 +19,32 @@ type wireRow struct {
 
 // DESIGN Appendix A.3, transcribed from gtfs-realtime.proto (not from the code).
 var wireOracle = []wireRow{
-	{"gtfs.Realtime.CreatedAt", []string{"FeedHeader.Timestamp"}, []string{"time.Unix", "time.Time.In", "timezoneOrUTC"}, []string{"time.Time.In(time.Unix("}},
+	{"gtfs.Realtime.CreatedAt", []string{"FeedHeader.Timestamp"}, []string{"time.Unix", "time.Time.In", clsZone}, []string{"time.Time.In(time.Unix("}},
 	{"gtfs.TripID.ID", []string{"TripDescriptor.TripId"}, nil, nil},
 	{"gtfs.TripID.RouteID", []string{"TripDescriptor.RouteId"}, nil, nil},
-	{"gtfs.TripID.DirectionID", []string{"TripDescriptor.DirectionId"}, []string{"parseDirectionID_GTFSRealtime"}, nil},
+	{"gtfs.TripID.DirectionID", []string{"TripDescriptor.DirectionId"}, []string{"(*uint32)→(gtfs.DirectionID)"}, nil},
 	{"gtfs.TripID.ScheduleRelationship", []string{"TripDescriptor.ScheduleRelationship"}, nil, nil},
-	{"gtfs.TripID.HasStartTime", []string{"TripDescriptor.StartTime"}, []string{"parseStartTime"}, []string{"#0"}},
-	{"gtfs.TripID.StartTime", []string{"TripDescriptor.StartTime"}, []string{"parseStartTime"}, []string{"#1"}},
-	{"gtfs.TripID.HasStartDate", []string{"TripDescriptor.StartDate"}, []string{"parseStartDate", "timezoneOrUTC"}, []string{"#0"}},
-	{"gtfs.TripID.StartDate", []string{"TripDescriptor.StartDate"}, []string{"parseStartDate", "timezoneOrUTC"}, []string{"#1", "timezoneOrUTC("}},
+	{"gtfs.TripID.HasStartTime", []string{"TripDescriptor.StartTime"}, []string{"(*string)→(bool,time.Duration)"}, []string{"#0"}},
+	{"gtfs.TripID.StartTime", []string{"TripDescriptor.StartTime"}, []string{"(*string)→(bool,time.Duration)"}, []string{"#1"}},
+	{"gtfs.TripID.HasStartDate", []string{"TripDescriptor.StartDate"}, []string{"(*string)→(bool,time.Time)", clsZone}, []string{"#0"}},
+	{"gtfs.TripID.StartDate", []string{"TripDescriptor.StartDate"}, []string{"(*string)→(bool,time.Time)", clsZone}, []string{"#1", "{" + clsZone + "}("}},
 	{"gtfs.StopTimeUpdate.StopSequence", []string{"TripUpdate_StopTimeUpdate.StopSequence"}, nil, nil},
 	{"gtfs.StopTimeUpdate.StopID", []string{"TripUpdate_StopTimeUpdate.StopId"}, nil, nil},
-	{"gtfs.StopTimeUpdate.Arrival", []string{"TripUpdate_StopTimeUpdate.Arrival"}, []string{"parseTripUpdate$1"}, nil},
-	{"gtfs.StopTimeUpdate.Departure", []string{"TripUpdate_StopTimeUpdate.Departure"}, []string{"parseTripUpdate$1"}, nil},
+	{"gtfs.StopTimeUpdate.Arrival", []string{"TripUpdate_StopTimeUpdate.Arrival"}, []string{"(*proto.TripUpdate_StopTimeEvent)→(*gtfs.StopTimeEvent)"}, nil},
+	{"gtfs.StopTimeUpdate.Departure", []string{"TripUpdate_StopTimeUpdate.Departure"}, []string{"(*proto.TripUpdate_StopTimeEvent)→(*gtfs.StopTimeEvent)"}, nil},
 	{"gtfs.StopTimeUpdate.ScheduleRelationship", []string{"TripUpdate_StopTimeUpdate.ScheduleRelationship"}, nil, nil},
-	{"gtfs.StopTimeUpdate.NyctTrack", []string{"TripUpdate.StopTimeUpdate"}, []string{"GetTrack"}, []string{"GetTrack(param:opts.Extension,"}},
-	{"gtfs.StopTimeEvent.Time", []string{"TripUpdate_StopTimeEvent.Time"}, []string{"time.Unix", "time.Time.In", "timezoneOrUTC"}, []string{"time.Time.In(time.Unix(", "timezoneOrUTC("}},
+	{"gtfs.StopTimeUpdate.NyctTrack", []string{"TripUpdate.StopTimeUpdate"}, []string{"GetTrack"}, []string{"GetTrack(param:<gtfs.ParseRealtimeOptions>.Extension,"}},
+	{"gtfs.StopTimeEvent.Time", []string{"TripUpdate_StopTimeEvent.Time"}, []string{"time.Unix", "time.Time.In", clsZone}, []string{"time.Time.In(time.Unix(", "{" + clsZone + "}("}},
 	{"gtfs.StopTimeEvent.Delay", []string{"TripUpdate_StopTimeEvent.Delay"}, nil, []string{"* const:1000000000"}},
 	{"gtfs.StopTimeEvent.Uncertainty", []string{"TripUpdate_StopTimeEvent.Uncertainty"}, nil, nil},
-	{"gtfs.VehicleID.ID", []string{"VehicleDescriptor.Id"}, []string{"parseVehicleDescriptor$1"}, nil},
-	{"gtfs.VehicleID.Label", []string{"VehicleDescriptor.Label"}, []string{"parseVehicleDescriptor$1"}, nil},
-	{"gtfs.VehicleID.LicensePlate", []string{"VehicleDescriptor.LicensePlate"}, []string{"parseVehicleDescriptor$1"}, nil},
-	{"gtfs.Vehicle.Position", nil, []string{"convertVehiclePosition"}, []string{"convertVehiclePosition(param:vehiclePosition)"}},
+	{"gtfs.VehicleID.ID", []string{"VehicleDescriptor.Id"}, nil, nil},
+	{"gtfs.VehicleID.Label", []string{"VehicleDescriptor.Label"}, nil, nil},
+	{"gtfs.VehicleID.LicensePlate", []string{"VehicleDescriptor.LicensePlate"}, nil, nil},
+	{"gtfs.Vehicle.Position", nil, []string{"(*proto.VehiclePosition)→(*gtfs.Position)"}, []string{"{(*proto.VehiclePosition)→(*gtfs.Position)}(param:<proto.VehiclePosition>)"}},
 	{"gtfs.Vehicle.CurrentStopSequence", []string{"VehiclePosition.CurrentStopSequence"}, nil, nil},
 	{"gtfs.Vehicle.StopID", []string{"VehiclePosition.StopId"}, nil, nil},
 	{"gtfs.Vehicle.CurrentStatus", []string{"VehiclePosition.CurrentStatus"}, nil, nil},
-	{"gtfs.Vehicle.Timestamp", []string{"VehiclePosition.Timestamp"}, []string{"convertOptionalTimestamp", "timezoneOrUTC"}, []string{"timezoneOrUTC("}},
+	{"gtfs.Vehicle.Timestamp", []string{"VehiclePosition.Timestamp"}, []string{"(*uint64)→(*time.Time)", clsZone}, []string{"{" + clsZone + "}("}},
 	{"gtfs.Vehicle.CongestionLevel", []string{"VehiclePosition.CongestionLevel"}, nil, nil},
 	{"gtfs.Vehicle.OccupancyStatus", []string{"VehiclePosition.OccupancyStatus"}, nil, nil},
 	{"gtfs.Vehicle.OccupancyPercentage", []string{"VehiclePosition.OccupancyPercentage"}, nil, nil},
@@ -53,14 +53,14 @@ var wireOracle = []wireRow{
 	{"gtfs.Position.Bearing", []string{"Position.Bearing"}, nil, nil},
 	{"gtfs.Position.Odometer", []string{"Position.Odometer"}, nil, nil},
 	{"gtfs.Position.Speed", []string{"Position.Speed"}, nil, nil},
-	{"gtfs.Alert.ID", nil, nil, []string{"param:ID"}},
+	{"gtfs.Alert.ID", nil, nil, []string{"param:<string>"}},
 	{"gtfs.Alert.Cause", []string{"Alert.Cause"}, nil, nil},
 	{"gtfs.Alert.Effect", []string{"Alert.Effect"}, nil, nil},
-	{"gtfs.Alert.Header", []string{"Alert.HeaderText"}, []string{"buildAlertText"}, nil},
-	{"gtfs.Alert.Description", []string{"Alert.DescriptionText"}, []string{"buildAlertText"}, nil},
-	{"gtfs.Alert.URL", []string{"Alert.Url"}, []string{"buildAlertText"}, nil},
-	{"gtfs.AlertActivePeriod.StartsAt", []string{"TimeRange.Start"}, []string{"convertOptionalTimestamp", "timezoneOrUTC"}, []string{"timezoneOrUTC("}},
-	{"gtfs.AlertActivePeriod.EndsAt", []string{"TimeRange.End"}, []string{"convertOptionalTimestamp", "timezoneOrUTC"}, []string{"timezoneOrUTC("}},
+	{"gtfs.Alert.Header", []string{"Alert.HeaderText"}, []string{"(*proto.TranslatedString)→([]gtfs.AlertText)"}, nil},
+	{"gtfs.Alert.Description", []string{"Alert.DescriptionText"}, []string{"(*proto.TranslatedString)→([]gtfs.AlertText)"}, nil},
+	{"gtfs.Alert.URL", []string{"Alert.Url"}, []string{"(*proto.TranslatedString)→([]gtfs.AlertText)"}, nil},
+	{"gtfs.AlertActivePeriod.StartsAt", []string{"TimeRange.Start"}, []string{"(*uint64)→(*time.Time)", clsZone}, []string{"{" + clsZone + "}("}},
+	{"gtfs.AlertActivePeriod.EndsAt", []string{"TimeRange.End"}, []string{"(*uint64)→(*time.Time)", clsZone}, []string{"{" + clsZone + "}("}},
 	{"gtfs.AlertInformedEntity.AgencyID", []string{"EntitySelector.AgencyId"}, nil, nil},
 	{"gtfs.AlertInformedEntity.StopID", []string{"EntitySelector.StopId"}, nil, nil},
 	{"gtfs.AlertText.Text", []string{"TranslatedString_Translation.Text"}, nil, nil},
@@ -71,24 +71,27 @@ var wireOracle = []wireRow{
 var wireMulti = map[string][]wireRow{
 	"gtfs.AlertInformedEntity.RouteID": {
 		{"", []string{"EntitySelector.RouteId"}, nil, nil},
-		{"", []string{"EntitySelector.Trip"}, []string{"append", "parseOptionalTripDescriptor", "parseTripDescriptor"}, nil}, // fallback: the trip descriptor's route id
+		{"", []string{"EntitySelector.Trip"}, []string{"append", "(*proto.TripDescriptor)→(*gtfs.TripID)", "(*proto.TripDescriptor)→(gtfs.TripID)"}, nil}, // fallback: the trip descriptor's route id
 		{"", nil, []string{"append"}, nil},
 	},
 	"gtfs.AlertInformedEntity.RouteType": {
-		{"", []string{"EntitySelector.RouteType"}, []string{"parseRouteType_GTFSRealtime"}, nil},
+		{"", []string{"EntitySelector.RouteType"}, []string{"(*int32)→(gtfs.RouteType)"}, nil},
 		{"", nil, nil, []string{"const:10000"}},
 	},
 	"gtfs.AlertInformedEntity.DirectionID": {
-		{"", []string{"EntitySelector.DirectionId"}, []string{"parseDirectionID_GTFSRealtime"}, nil},
+		{"", []string{"EntitySelector.DirectionId"}, []string{"(*uint32)→(gtfs.DirectionID)"}, nil},
 		{"", nil, nil, []string{"const:"}},
 	},
 	"gtfs.AlertInformedEntity.TripID": {
-		{"", []string{"EntitySelector.Trip"}, []string{"parseOptionalTripDescriptor"}, nil},
+		{"", []string{"EntitySelector.Trip"}, []string{"(*proto.TripDescriptor)→(*gtfs.TripID)"}, nil},
 		{"", nil, nil, []string{"const:nil"}},
 	},
 }
 
-func matchWire(expr string, row wireRow) string {
+// clsZone: the helper that resolves the configured timezone (opts.Timezone or UTC), whatever it is called.
+const clsZone = "()→(*time.Location)"
+
+func matchWire(b *binder, expr string, row wireRow) string {
 	var leaves []string
 	for _, l := range leavesOf(expr) {
 		if strings.HasPrefix(l, "proto:") {
@@ -102,18 +105,12 @@ func matchWire(expr string, row wireRow) string {
 		return fmt.Sprintf("wire field(s) %v reach it; gtfs-realtime.proto binds it to %v", leaves, want)
 	}
 	for _, cl := range callsOf(expr) {
-		ok := false
-		for _, a := range row.calls {
-			if a == cl {
-				ok = true
-			}
-		}
-		if !ok {
-			return "value passes through " + cl + ", which is not an allowed transformer for this field"
+		if !b.classAllowed(cl, row.calls) {
+			return "value passes through " + cl + " " + b.classOf[cl] + ", which is not an allowed transformer for this field"
 		}
 	}
 	for _, m := range row.must {
-		if !strings.Contains(expr, m) {
+		if !b.containsForm(expr, m) {
 			return "expected form " + m + " not found"
 		}
 	}
@@ -160,7 +157,7 @@ func runWireTable(c *Ctx) {
 				okAny := false
 				var whys []string
 				for _, r := range multi {
-					why := matchWire(expr, r)
+					why := matchWire(b, expr, r)
 					if why == "" {
 						okAny = true
 					}
@@ -175,7 +172,7 @@ func runWireTable(c *Ctx) {
 			}
 			// the accumulators' merge stores and the literal flags are handled by other rules
 			seen[key] = true
-			why := matchWire(expr, r)
+			why := matchWire(b, expr, r)
 			c.Check(why == "", "A3", fname, key, p.ipos(fs.store), key+" <- "+clip(expr, 120), why+" (expression: "+clip(expr, 200)+")")
 		}
 	}
@@ -220,7 +217,7 @@ func runZoneProvenance(c *Ctx) {
 	b := newBinder(c)
 	zoneOK := func(z ssa.Value, fn *ssa.Function) (bool, string) {
 		expr := b.bind(z)
-		if strings.HasPrefix(expr, "timezoneOrUTC(") {
+		if b.headClass(expr) == clsZone {
 			return true, expr
 		}
 		// a parameter: every caller passes timezoneOrUTC(...)
@@ -237,7 +234,7 @@ func runZoneProvenance(c *Ctx) {
 			}
 			for _, e := range callers {
 				args := e.Site.Common().Args
-				if idx >= len(args) || !strings.HasPrefix(b.bind(args[idx]), "timezoneOrUTC(") {
+				if idx >= len(args) || b.headClass(b.bind(args[idx])) != clsZone {
 					return false, "caller " + shortName(e.Caller) + " passes " + clip(b.bind(args[idx]), 80)
 				}
 			}
@@ -289,7 +286,7 @@ func runZoneProvenance(c *Ctx) {
 	}
 	c.Stats["ZONE time constructions"] = n
 	// timezoneOrUTC: opts.Timezone when set, UTC otherwise
-	if f := c.anchor("gtfs:(*ParseRealtimeOptions).timezoneOrUTC"); f != nil {
+	for _, f := range fnsByClass(fns, clsZone) {
 		tb, err := extractTable(f)
 		ok := err == nil && len(tb.rows) == 2
 		if ok {
@@ -386,9 +383,9 @@ func runUnits(c *Ctx) {
 				got[condsString(r.conds)] = r.results[0]
 			}
 			want := map[string]string{
-				pn + "==nil":                                    c.constOf("gtfs", "DirectionID_Unspecified"),
-				pn + "!=nil && *(" + pn + ")==0":                c.constOf("gtfs", "DirectionID_False"),
-				pn + "!=nil && *(" + pn + ")!=0":                c.constOf("gtfs", "DirectionID_True"),
+				pn + "==nil":                     c.constOf("gtfs", "DirectionID_Unspecified"),
+				pn + "!=nil && *(" + pn + ")==0": c.constOf("gtfs", "DirectionID_False"),
+				pn + "!=nil && *(" + pn + ")!=0": c.constOf("gtfs", "DirectionID_True"),
 			}
 			for k, v := range want {
 				if got[k] != v {
